@@ -14,6 +14,20 @@ P = 'src/protocol.rs'
 PS = 'protocol::ProtocolState'
 
 
+def heap_order(ctx, keyprefix, rule=None):
+    for impl_, meth in (('Ord', 'cmp'), ('PartialOrd', 'partial_cmp')):
+        cord = ctx.fn('<protocol::OperationTimeoutRecord as std::cmp::%s>::%s' % (impl_, meth))
+        rv = prims.ret_variants(cord)
+        TCMP = r'(Ord::cmp|PartialOrd::partial_cmp)\(self\.timeout, other\.timeout\)'
+        def by_deadline(b, e):
+            t = show(e)
+            if re.match(r'^(Option::Some\{0: )?' + TCMP + r'\}?$', t) or re.match(r'^(Option::Some\{0: )?Ordering::then(_with)?\(' + TCMP + r', ', t):
+                return True
+            return guarded_any(cord, b, [TCMP + r'( is Equal| is Some)?.*Equal'])
+        ok = bool(rv) and all(by_deadline(b, e) for b, e in rv)
+        ctx.ob(ok, 'the heap orders records by deadline: %s::%s compares `timeout` first (returns: %s)' % (impl_, meth, sorted(set(show(e)[:70] for _, e in rv))), keyprefix + meth, loc=cord.loc(), rule=rule)
+
+
 def run(ctx):
     F = ctx.F
     ctx.rule('R-C18-1', 'T1 + T9', 'the timeout record is created only when the operation is fully written, from that service time plus the operation\'s own ack timeout; publish, subscribe and unsubscribe are all covered')
@@ -75,17 +89,8 @@ def run(ctx):
     ctx.ob(bool(oks), 'failing an id that no longer exists (ack arrived first) is a no-op', 'fire|stale', loc=cf.loc())
     # the heap's order is the deadline order: both comparison impls compare `timeout` first; any other
     # key may only break ties (BinaryHeap sifts with PartialOrd::le/lt, i.e. partial_cmp)
-    for impl_, meth in (('Ord', 'cmp'), ('PartialOrd', 'partial_cmp')):
-        cord = ctx.fn('<protocol::OperationTimeoutRecord as std::cmp::%s>::%s' % (impl_, meth))
-        rv = prims.ret_variants(cord)
-        TCMP = r'(Ord::cmp|PartialOrd::partial_cmp)\(self\.timeout, other\.timeout\)'
-        def by_deadline(b, e):
-            t = show(e)
-            if re.match(r'^(Option::Some\{0: )?' + TCMP + r'\}?$', t) or re.match(r'^(Option::Some\{0: )?Ordering::then(_with)?\(' + TCMP + r', ', t):
-                return True
-            return guarded_any(cord, b, [TCMP + r'( is Equal| is Some)?.*Equal'])
-        ok = bool(rv) and all(by_deadline(b, e) for b, e in rv)
-        ctx.ob(ok, 'the heap orders records by deadline: %s::%s compares `timeout` first (returns: %s)' % (impl_, meth, sorted(set(show(e)[:70] for _, e in rv))), 'fire|order|' + meth, loc=cord.loc())
+    heap_order(ctx, 'fire|order|')
+
     ty = [f_['ty'] for f_ in F.adt(PS)['variants'][0]['fields'] if f_['name'] == 'operation_ack_timeouts'][0]
     ctx.ob(ty.startswith('std::collections::BinaryHeap<std::cmp::Reverse<'), 'the heap is a min-heap on the deadline (BinaryHeap<Reverse<..>>)', 'fire|minheap')
 
